@@ -16,3 +16,31 @@ Definition closed_at (p : prog) (r : st) (j : nat) (i : ins) : bool :=
   && forallb (fun o => match o with Some s => sub_ms (nth_in r s) (nth_out r j) | None => true end) (isucc i).
 Definition closed_b (p : prog) (r : st) : bool :=
   Nat.eqb (List.length r) (List.length p) && forallb (fun ji : nat * ins => closed_at p r (fst ji) (snd ji)) (index_list p).
+
+(* C02 at scale: exactness.  A closed family of sets may still report a byte live that no path reads (a
+   value carried around a loop supports itself).  To certify that nothing of that kind is reported, the
+   harness supplies, for every instruction and every byte class live before it, a RANK: the number of
+   steps to a read along some write-free path.  Coq checks the ranks locally — rank holders either read
+   the byte themselves or pass it, unwritten, to a successor where it is live with a smaller rank — and
+   that every byte live after an instruction is live before one of its successors. *)
+Definition rank_t := list (N * N * N).   (* (id, bit, rank) *)
+Definition rank_of (rk : rank_t) (id k : N) : option N :=
+  match List.find (fun e : N * N * N => (fst (fst e) =? id) && (snd (fst e) =? k)) rk with Some e => Some (snd e) | None => None end.
+Definition ranks_at (rks : list rank_t) (j : nat) : rank_t := default [] (rks !! j).
+Definition bits_of_ms (s : MS) : list (N * N) :=
+  flat_map (fun e : N * N => List.map (fun b => (fst e, b)) (List.filter (N.testbit (snd e)) (bits_of (snd e)))) (ms_elements s).
+Definition supported_at (r : st) (rks : list rank_t) (j : nat) (i : ins) : bool :=
+  forallb (fun idk : N * N => let '(id, k) := idk in
+     match rank_of (ranks_at rks j) id k with
+     | None => false
+     | Some n => mem (iuse i) id k
+                 || (negb (mem (idef i) id k)
+                     && existsb (fun o => match o with
+                                          | Some j' => mem (nth_in r j') id k
+                                                       && match rank_of (ranks_at rks j') id k with Some n' => n' <? n | None => false end
+                                          | None => false end) (isucc i))
+     end) (bits_of_ms (nth_in r j))
+  && forallb (fun idk : N * N => let '(id, k) := idk in
+       existsb (fun o => match o with Some j' => mem (nth_in r j') id k | None => false end) (isucc i)) (bits_of_ms (nth_out r j)).
+Definition supported_b (p : prog) (r : st) (rks : list rank_t) : bool :=
+  forallb (fun ji : nat * ins => supported_at r rks (fst ji) (snd ji)) (index_list p).
